@@ -14,6 +14,7 @@ Recursion into configured functions is cut and recorded as an event
 
 Exploration is by deterministic re-execution with a decision prefix.
 """
+import os
 import sys
 from .cast import Node, unquote
 from .build import AnalysisBroken
